@@ -189,8 +189,8 @@ func c12(c *eng.Ctx) {
 	}
 	// full 64x64 code-blocks of 16-bit noise (code-block contributions beyond 8 KiB)
 	for _, lv := range []int{1, 3} {
-		for _, q := range []int{50, 80} {
-			jobs = append(jobs, c12Case{W: 128, H: 128, C: 1, P: 16, Quality: q, Levels: lv, CB: 64, K: 4})
+		for _, q := range []int{50, 80, 90} {
+			jobs = append(jobs, c12Case{W: 128, H: 128, C: 1, P: 16, Quality: q, Levels: lv, CB: 64, K: 1})
 		}
 	}
 	big := [][2]int{{40, 40}, {64, 17}}
